@@ -200,6 +200,14 @@ def _generated(rng, tier, focus, allow_degenerate=True):
         n_res = rng.randint(2, min(3, n_start, n_end))       # multi-residue pair (same residue names at each position)
     start = _mol(rng, "SPC", n_start, tree=not start_fixed, p_h=p_h, origin=gen.rvec(rng, far), n_res=n_res)
     end = _mol(rng, "SPC", n_end, tree=start_fixed, p_h=p_h, origin=gen.rvec(rng, far), n_res=n_res)
+    if focus == "C09" and n_start == n_end and rng.random() < 0.35:
+        # the molecule against ITSELF at the same coordinates: the search starts at an overlap measure of exactly 0, every
+        # proposal is worse, and 0.01 * E_held / E_new is 0 -- nothing may be accepted
+        import copy as _copy
+        start = _copy.deepcopy(end)
+        identical_pair = True
+    else:
+        identical_pair = False
     if rng.random() < 0.3:
         start["velocities"] = [gen.rvec(rng, 1.0) for _ in range(n_start)]
     n_mob = min(n_start, n_end) if n_start != n_end else n_end
@@ -251,6 +259,26 @@ def _generated(rng, tier, focus, allow_degenerate=True):
           "sigma_scale": rng.choice([0.5, 0.5, rng.uniform(0.05, 2.0)]),
           "np_seed": rng.randrange(2 ** 32), "script": gen_script(rng)}
     # how the molecules reach the Alignment and in what form the options are written
+    if identical_pair:
+        tr["identical_pair"] = True
+        if n_end >= 3 and rng.random() < 0.6:
+            # ... with some hydrogens, filtered out of the fixed copy: moving one of them in the mobile copy leaves the
+            # measure at exactly 0 -- a proposal of EQUAL measure, which is always accepted
+            deg = {}
+            for a_, b_ in end["edges"]:
+                deg[a_] = deg.get(a_, 0) + 1
+                deg[b_] = deg.get(b_, 0) + 1
+            leaves = [i_ for i_ in range(n_end) if deg.get(i_, 0) == 1]
+            def heavy_(nm):
+                return not nm.lstrip("0123456789").upper().startswith("H")
+            for i_ in leaves[:max(1, len(leaves) // 2)]:
+                if sum(1 for k_, nm in enumerate(end["atom_names"]) if k_ != i_ and heavy_(nm)) < 2:
+                    break                       # (a molecule must keep heavy atoms: the filter leaves nothing otherwise)
+                for spec_ in (start, end):
+                    spec_["atom_names"][i_] = "H%d" % (i_ % 100)
+            tr["ignore_h"] = True
+            if tr["deform"] is not None and 2 not in tr["deform"]:
+                tr["deform"] = sorted(set(tr["deform"]) | {2})
     tr["lifecycle"] = rng.choice(["ctor", "ctor", "ctor", "assign", "none_then_assign", "assign_reversed"])
     tr["forms"] = {"deform": rng.choice(["tuple", "tuple", "list"]), "restr": rng.choice(["tuples", "tuples", "lists"]),
                    "omit_empty": rng.random() < 0.3}
@@ -654,6 +682,10 @@ class Watch:
                                 f"measure by the reference definition is {ref!r}", key=what.split()[0])
                     break
         # the rule
+        if e0 == 0 and e1 > 0:
+            ctx.probe("worse_proposal_against_a_held_measure_of_zero")
+        if e0 == 0 and e1 == 0:
+            ctx.probe("equal_proposal_both_measures_zero")
         if e1 <= e0:
             expect = True
             if e1 == e0 and not np.array_equal(cur["proposal"], self.held):
@@ -1341,7 +1373,35 @@ def check_c06(trace, ctx, ali, ini_s, ini_e, start_fixed, tree_mobile, deform, m
         ctx.probe("rigid_only_run")
 
 
+def check_acceptance_corners(trace, ctx):
+    """The acceptance test the search uses, at the corners a search reaches only rarely: equal measures (always accepted)
+    including both exactly 0, a lower measure of 0, and a worse proposal against a held measure of 0 (probability 0).  Run
+    under the random seam with the run's own seed, so the verdicts replay."""
+    import gaddlemaps._backend as B
+    import warnings
+    r2 = _random.Random(trace["np_seed"])
+    e = r2.choice([1.0, 3.7e-12, 2.5e8, 5e-324])
+    with RandomSeam(ctx, (trace["np_seed"] + 7) % (2 ** 32), log=False), warnings.catch_warnings():
+        warnings.simplefilter("ignore")
+        for e0, e1, want in ((0.0, 0.0, True), (e, e, True), (e, 0.0, True), (np.float64(0.0), np.float64(0.0), True),
+                             (np.float64(e), np.float64(e), True), (0.0, e, False), (np.float64(0.0), np.float64(e), False)):
+            try:
+                got = bool(B.accept_metropolis(e0, e1))
+            except Exception as ex:
+                ctx.violate("C09", "metropolis-rule", f"the acceptance test raised {type(ex).__name__} for E_held={e0!r} "
+                                                      f"E_new={e1!r}: {ex}", key="corner-raised")
+                return
+            if got != want:
+                ctx.violate("C09", "metropolis-rule", f"E_held={e0!r} E_new={e1!r}: expected "
+                                                      f"{'accept' if want else 'reject'}, got {'accept' if got else 'reject'} "
+                                                      f"(acceptance test called on its own)", key="corner")
+                return
+    ctx.probe("acceptance_corners_judged")
+
+
 def check_c09_end(trace, ctx, watch, info):
+    if trace["focus"] == "C09" and trace["np_seed"] % 4 == 0:
+        check_acceptance_corners(trace, ctx)
     if "args" not in info:
         ctx.probe("optimiser_not_reached")
         return
